@@ -271,10 +271,12 @@ impl<A: Codec> Seq<A> {
     pub fn from_raw(len: usize, bits: &[usize]) -> Option<Self> {
         let mut bv: Bv = Bv::from_slice(bits);
         //debug_assert!(len <= bv.len(), "desired length is greater than provided bits string");
-        if len * A::BITS as usize > bv.len() {
+        // a symbol count whose bit length does not fit in a usize cannot be held by any image
+        let bits = len.checked_mul(A::BITS as usize)?;
+        if bits > bv.len() {
             None
         } else {
-            bv.truncate(len * A::BITS as usize);
+            bv.truncate(bits);
             Some(Seq {
                 _p: PhantomData,
                 bv,
